@@ -65,6 +65,7 @@ mod tests {
 #[cfg(rip_verif)]
 pub mod verif_export {
     pub use crate::checkpoints::WorkspaceCheckpointHook;
+    pub use crate::continuities::verif_hooks as continuities;
     pub use crate::provider_openresponses::OpenResponsesConfig;
     pub use crate::server::verif_hooks::VerifApp;
     pub use crate::session::verif_hooks as session;
